@@ -244,8 +244,10 @@ def parent_for(unit, element, rules):
     return p
 
 
-def realise(unit, element, word, rules):
-    from metapype.model.node import Node
+def realise(unit, element, word, rules, same_id=None):
+    """same_id: construct every child with this explicit id (Node(name, id=...) takes any id, also a used one)"""
+    from metapype.model.node import Node as _Node
+    Node = (lambda nm: _Node(nm, id=same_id)) if same_id else _Node
     p = parent_for(unit, element, rules)
     for i, a in enumerate(word):
         if a == FOREIGN:
